@@ -25,7 +25,7 @@ Lemma wf_graph_eq allow_dev visible g :
   && nodup_str qs && forallb (fun q => wf_dict (qa_params q) && nonempty (qa_params q)) (g_quant g)
   && forallb (fun q => in_str q decl) qs
   && wf_dict (g_meta g)
-  && forallb (wf_node allow_dev (wf_graph true) (visible ++ decl)) (g_nodes g)).
+  && forallb (wf_node allow_dev (wf_graph allow_dev) (visible ++ decl)) (g_nodes g)).
 Proof. destruct g. reflexivity. Qed.
 
 Record wfg_props (allow_dev : bool) (visible : list str) (g : GraphP) : Prop := {
@@ -52,7 +52,7 @@ Record wfg_props (allow_dev : bool) (visible : list str) (g : GraphP) : Prop := 
   w_qs_wf : forall q, In q (g_quant g) -> wf_dict (qa_params q) = true /\ qa_params q <> [];
   w_qs_decl : forall k, In k (map (fun q => dflt [] (qa_name q)) (g_quant g)) -> In k (declared g);
   w_meta : wf_dict (g_meta g) = true;
-  w_nodes : forallb (wf_node allow_dev (wf_graph true) (visible ++ declared g)) (g_nodes g) = true }.
+  w_nodes : forallb (wf_node allow_dev (wf_graph allow_dev) (visible ++ declared g)) (g_nodes g) = true }.
 
 Lemma nonempty_ne {A} (l : list A) : nonempty l = true -> l <> [].
 Proof. destruct l; [discriminate | discriminate]. Qed.
